@@ -593,6 +593,8 @@ func (c *Ctx) crossAsync() {
 
 // concurrentIndependent: k goroutines work on k different containers (parse, build, sort, reverse, serialise,
 // format, clone); every result must equal what the same work gives when done alone.
+var freshIndex int64
+
 func (c *Ctx) concurrentIndependent(k int) {
 	work := func(g int) string {
 		var sb strings.Builder
@@ -631,6 +633,9 @@ func (c *Ctx) concurrentIndependent(k int) {
 		for i := 0; i < 8; i++ {
 			idx := (i*7 + g) % 64
 			sb.WriteString(fmt.Sprint(l.GetTF("#"+strconv.Itoa(idx)), l.TypeOfTF("#"+strconv.Itoa(idx)), l.TypeOfTF("#0"+strconv.Itoa(idx%8)), l.TypeOfTF("#"+strconv.Itoa(1000+idx+g*64))))
+			// an index spelling no call has used before (whatever an implementation remembers about earlier paths is of no use)
+			fresh := strconv.FormatInt(100000+atomic.AddInt64(&freshIndex, 1), 10)
+			sb.WriteString(fmt.Sprint(l.TypeOfTF("#"+fresh), l.TypeOfTF("#0#"+fresh), at.NewObject("k", l).TypeOfTF(".k#"+fresh)))
 		}
 		return sb.String()
 	}
